@@ -939,12 +939,13 @@ func Spec() *core.Spec {
 			"part 2: 19 object kinds/formats with every subset (<= 12 removable nodes) or random subsets of their optional nodes removed, wrapped keys and key-format mismatches; every accessor is called on whatever still decodes. " +
 			"transport buffer overwritten after decoding; 3-8 objects held across later messages of one stream; a builder refusing a named key is a violation; every second transparent RSA registration with a key never Precompute()d; every second object transported as a reference wire image written from the pinned layout; EC keys labelled with algorithm EC at 1.3+; distinct = distinct (key, format, version, encoding) transports and distinct degraded tree shapes",
 		Assumptions: []string{"keys smaller than production size exercise the same code paths; a few 1024-bit moduli are included", "mathematical equality = Equal() of crypto/rsa and crypto/ecdsa, byte equality for symmetric keys and secrets"},
-		Required: []string{"transports", "accessor_calls", "held_objects", "rsa.without-precomputed-crt", "ec.algorithm-EC", "ec.no-compression-type", "transports.reference-wire-image", "degraded_decodable", "degraded_accessor_calls", "rsa.d-leading-zero-byte", "rsa.d-starts-hi", "rsa.d-starts-lo", "ec.P-224", "ec.P-256", "ec.P-384", "ec.P-521",
+		Required: []string{"transports", "pem_registrations.PemKey", "pem_registrations.PemPublicKey", "pem_registrations.PemPrivateKey", "accessor_calls", "held_objects", "rsa.without-precomputed-crt", "ec.algorithm-EC", "ec.no-compression-type", "transports.reference-wire-image", "degraded_decodable", "degraded_accessor_calls", "rsa.d-leading-zero-byte", "rsa.d-starts-hi", "rsa.d-starts-lo", "ec.P-224", "ec.P-256", "ec.P-384", "ec.P-521",
 			"ec.d-leading-zero-byte", "ec.d-full-width.P-521", "ec.d-full-width.P-256", fmt.Sprintf("ec.transparent.format-%d", kmip.KeyFormatTypeTransparentECDSAPrivateKey), fmt.Sprintf("ec.transparent.format-%d", kmip.KeyFormatTypeTransparentECPrivateKey)},
 		Families: []core.Family{
 			{Name: "keys", N: nOf(1440, 72000), Run: keyCase},
 			{Name: "degraded", N: nOf(19*32, 19*32*40), Run: degradedCase},
 			{Name: "held", N: nOf(60, 6000), Run: heldCase},
+			{Name: "pem", N: nOf(180, 9000), Run: pemCase},
 		},
 	}
 }
